@@ -1,6 +1,130 @@
-(* C14 - placeholder while the pipeline is assembled *)
-From Coq Require Import NArith List.
-From BHS Require Import WireBase WireMsg WireFrame WireSpec.
-Theorem C14_placeholder : True.
-Proof. exact I. Qed.
-Print Assumptions C14_placeholder.
+(* C14 - Wire codec: decode(encode(m)) = m; hostile bytes are rejected without harm.
+   Only the property theorems, each closed by `exact`.  Model: theories/WireBase.v, WireMsg.v,
+   WireFrame.v (mirrors /repo/internal/wire); declarative oracles: theories/WireSpec.v.
+   bytes = list N; pver = negotiated protocol version; ebs = the configured excessive block size
+   (maxMessagePayload = max_message_payload ebs); net = the network magic. *)
+From Coq Require Import NArith ZArith List Bool.
+From BHS Require Import Sha256 WireBase WireBaseProofs WireMsg WireMsgProofs WireFrame WireSpec WireSpecProofs WireFrameProofs.
+Import ListNotations.
+Open Scope N_scope.
+
+(* ---- round trip, for ALL messages of the kinds version, verack, getaddr, addr, getblocks,
+   getheaders, headers, inv, getdata, notfound, ping, pong, reject, sendheaders, feefilter, mempool
+   (wf_msg is false for protoconf/authch, whose payload the decoder ignores, and for the kinds
+   outside the model).  rest_ok: any continuation, except that a version message encoded below
+   BIP0037Version must end the buffer (its decoder looks at what remains). *)
+Theorem C14_decode_encode : forall pver mmp m rest,
+  mmp < 2 ^ 64 -> wf_msg pver mmp m = true -> rest_ok pver m rest ->
+  enc_check pver m = None /\
+  dec_payload pver mmp (kind_of m) (enc_payload pver m ++ rest) = Ok (m, rest).
+Proof. exact decode_encode. Qed.
+
+(* re-encoding a decoded message reproduces the bytes *)
+Theorem C14_reencode : forall pver mmp m m' rest',
+  mmp < 2 ^ 64 -> wf_msg pver mmp m = true ->
+  dec_payload pver mmp (kind_of m) (enc_payload pver m) = Ok (m', rest') ->
+  rest' = [] /\ enc_msg pver m' = Ok (enc_payload pver m).
+Proof. exact encode_decode_encode. Qed.
+
+(* stronger, for arbitrary (hostile) bytes: whatever a decoder of a canonical kind accepts is exactly
+   the encoding of the message it returns (uses ReadVarInt's canonical-encoding check) *)
+Theorem C14_reencode_canonical : forall pver mmp k bs m r,
+  canonical_kind pver k = true -> bytes_ok bs = true ->
+  dec_payload pver mmp k bs = Ok (m, r) ->
+  bs = enc_payload pver m ++ r /\ enc_check pver m = None /\ kind_of m = k.
+Proof. exact reencode. Qed.
+
+(* framed: ReadMessage (WriteMessage m ++ rest) returns m, its payload and leaves rest *)
+Theorem C14_frame_roundtrip : forall pver net ebs m fr rest,
+  net < 2 ^ 32 -> wf_msg pver (max_message_payload ebs) m = true ->
+  write_message pver net ebs m = Ok fr ->
+  read_message pver net ebs (fr ++ rest) = FOk m (enc_payload pver m) rest.
+Proof. exact frame_roundtrip. Qed.
+
+(* ---- rejection, for every byte string ---- *)
+Theorem C14_must_reject : forall pver net ebs bs,
+  must_reject pver net ebs bs = true -> exists e r, read_message pver net ebs bs = FErr e r.
+Proof. exact must_reject_sound. Qed.
+
+Theorem C14_reject_oversize : forall pver net ebs bs, 24 <= len bs ->
+  max_message_payload ebs < hdr_len bs ->
+  read_message pver net ebs bs = FErr EOversize (skipn 24 bs).
+Proof. exact reject_oversize. Qed.
+
+Theorem C14_reject_wrong_magic : forall pver net ebs bs, 24 <= len bs ->
+  hdr_len bs <= max_message_payload ebs -> hdr_magic bs <> net ->
+  read_message pver net ebs bs = FErr EWrongNet (discard (hdr_len bs) (skipn 24 bs)).
+Proof. exact reject_wrong_magic. Qed.
+
+Theorem C14_reject_unknown_command : forall pver net ebs bs, 24 <= len bs ->
+  hdr_len bs <= max_message_payload ebs -> hdr_magic bs = net -> known_cmd (hdr_cmd bs) = None ->
+  exists e, (e = EBadCmd \/ e = EUnknownCmd) /\
+            read_message pver net ebs bs = FErr e (discard (hdr_len bs) (skipn 24 bs)).
+Proof. exact reject_unknown_command. Qed.
+
+Theorem C14_reject_type_oversize : forall pver net ebs bs k, 24 <= len bs ->
+  hdr_magic bs = net -> known_cmd (hdr_cmd bs) = Some k ->
+  hdr_len bs <= max_message_payload ebs -> max_payload k pver ebs < hdr_len bs ->
+  read_message pver net ebs bs = FErr ETypeMax (discard (hdr_len bs) (skipn 24 bs)).
+Proof. exact reject_type_oversize. Qed.
+
+Theorem C14_reject_bad_checksum : forall pver net ebs bs k payload rest, 24 <= len bs ->
+  hdr_magic bs = net -> known_cmd (hdr_cmd bs) = Some k ->
+  hdr_len bs <= max_message_payload ebs -> hdr_len bs <= max_payload k pver ebs ->
+  skipn 24 bs = payload ++ rest -> len payload = hdr_len bs ->
+  checksum payload <> hdr_ck bs ->
+  read_message pver net ebs bs = FErr EChecksum rest.
+Proof. exact reject_bad_checksum. Qed.
+
+(* counts above the per-type limit are refused (before anything is allocated) *)
+Theorem C14_count_rejected : forall pver mmp k bs,
+  count_over_limit k bs = true -> dec_payload pver mmp k bs = Err ETooMany.
+Proof. exact count_rejected. Qed.
+
+(* ---- allocation ----
+   Full statement: forall pver ebs k bs, alloc_payload pver (max_message_payload ebs) k bs <= max_payload k pver ebs
+   (what a payload decoder asks make() for before reading the elements never exceeds the type's
+   MaxPayloadLength).  It is FALSE for version (C14_alloc_bounded_version_refuted: genuine defect,
+   finding C14-version-useragent-alloc); proved for every other kind of the table: *)
+Theorem C14_alloc_bounded_partial : forall pver ebs k bs,
+  k <> KVersion -> (k = KAddr -> MultipleAddressVersion <= pver) ->
+  alloc_payload pver (max_message_payload ebs) k bs <= max_payload k pver ebs.
+Proof. exact alloc_bounded. Qed.
+
+Theorem C14_alloc_version_partial : forall pver ebs bs,
+  alloc_payload pver (max_message_payload ebs) KVersion bs <= max_message_payload ebs.
+Proof. exact alloc_version_partial. Qed.
+
+Theorem C14_alloc_bounded_version_refuted :
+  max_payload KVersion 70013 128000000 <
+  alloc_payload 70013 (max_message_payload 128000000) KVersion version_alloc_witness.
+Proof. exact alloc_bounded_version_refuted. Qed.
+
+(* every buffer ReadMessage requests (payload buffer, discard chunk, decoder requests) stays within
+   max(10 KiB, MaxPayloadLength of the frame's type), for frames of any command but version *)
+Theorem C14_alloc_frame_bounded_partial : forall pver net ebs bs,
+  MultipleAddressVersion <= pver ->
+  (24 <= len bs -> known_cmd (hdr_cmd bs) <> Some KVersion) ->
+  alloc_frame pver net ebs bs <= alloc_limit pver ebs bs.
+Proof. exact alloc_frame_bounded. Qed.
+
+(* the digest model has the right shape (the checksum is 4 bytes) *)
+Theorem C14_sha256_length : forall bs, length (sha256 bs) = 32%nat.
+Proof. exact sha256_length. Qed.
+
+Print Assumptions C14_decode_encode.
+Print Assumptions C14_reencode.
+Print Assumptions C14_reencode_canonical.
+Print Assumptions C14_frame_roundtrip.
+Print Assumptions C14_must_reject.
+Print Assumptions C14_reject_oversize.
+Print Assumptions C14_reject_wrong_magic.
+Print Assumptions C14_reject_unknown_command.
+Print Assumptions C14_reject_type_oversize.
+Print Assumptions C14_reject_bad_checksum.
+Print Assumptions C14_count_rejected.
+Print Assumptions C14_alloc_bounded_partial.
+Print Assumptions C14_alloc_version_partial.
+Print Assumptions C14_alloc_bounded_version_refuted.
+Print Assumptions C14_alloc_frame_bounded_partial.
+Print Assumptions C14_sha256_length.
